@@ -18,7 +18,7 @@ EXTENDS Dec, Sequences, FiniteSets, TLC, Json, IOUtils
 VARIABLES i, viol
 Cases == JsonDeserialize(IOEnv.CASES)
 RowEq(x, y) == x.t = y.t /\ Len(x.vals) = Len(y.vals)
-               /\ \A k \in DOMAIN x.vals : Close(Num(x.vals[k]), Num(y.vals[k]), Sci(1, -7), Sci(1, -7))     \* two clean runs of one model differ by up to ~2e-9 (iteration order; solver tolerance 1e-6)
+               /\ \A k \in DOMAIN x.vals : Close(Num(x.vals[k]), Num(y.vals[k]), Sci(1, -5), Sci(1, -5))     \* two clean runs of one model differ by up to ~1e-7 (iteration order; solver tolerance 1e-6)
 Clauses(c) ==
   LET f == c.faulty  o == c.out  bad(n, ok) == IF ok THEN {} ELSE {n}
       failed == c.tfail >= 0
